@@ -83,6 +83,11 @@ fn main() {
             println!("inputs: ({}, {}, {}) ({}, {}, {})", ub1, v1, s1, ub2, v2, s2);
             maxub_clause(ub1, v1, s1, ub2, v2, s2).map_err(|e| e.to_string())
         }
+        "c11_simple_fringe_three_pushes" => {
+            let k = [(r.isize(), r.isize()), (r.isize(), r.isize()), (r.isize(), r.isize())];
+            println!("inputs: (ub, value) = {:?}", k);
+            simple_fringe_clause(k).map_err(|e| e.to_string())
+        }
         "c13_times_divby_never_zero_16bit" => {
             use ddo::{DivBy, SubProblem, Times, WidthHeuristic};
             let (k, w) = (r.usize(), r.usize());
